@@ -120,8 +120,12 @@ def parseDue (s : String) : Option Nat :=
   | "u62" => some 1000007
   | _ => s.toNat?
 
-def parseFlags (s : String) : Flags :=
-  { cancel := s.contains 'c', ignore := s.contains 'i', panic := s.contains 'p', dontWait := s.contains 'd' }
+/-- The flags of a `shutdown` line as the harness passes them to the code: the or of the source's constants. -/
+def flagMask (s : String) : Nat :=
+  (if s.contains 'c' then 1 else 0) ||| (if s.contains 'i' then 2 else 0) ||| (if s.contains 'p' then 4 else 0) |||
+    (if s.contains 'd' then 128 else 0)
+
+def parseFlags (s : String) : Flags := Flags.ofMask (flagMask s)
 
 def showRes : Res → String
   | .none => "none"
@@ -318,8 +322,11 @@ def stepLine (d : DSt) (toks : List String) : DSt × String :=
         match tag.toNat? with
         | some tag => let d' := opAt d now [.arm tag]; (d', answer d')
         | none => (d, "bad-op")
-      | ["shutdown", fl] =>
-        -- Executor.Shutdown is called from a goroutine of its own
+      | [sd, fl] =>
+        -- Executor.Shutdown is called from a goroutine of its own; `shutdown` calls it through the TaskExecutor
+        -- (promoted method, one flag per argument), `xshutdown` on the embedded Executor with the flags or-ed into
+        -- one argument: the same function
+        if sd != "shutdown" && sd != "xshutdown" then (d, "bad-op") else
         let d1 := opAt d now []
         let idx := d1.cfg.2.length
         let d2 : DSt := { d1 with cfg := (d1.cfg.1, d1.cfg.2 ++ [.ctl .ready [.shutdown (parseFlags fl)]]),
